@@ -86,6 +86,14 @@ func c14vars(log *[]string) jet.VarMap {
 		}
 		return reflect.ValueOf(rec(fmt.Sprintf("jf(%s)", strings.Join(parts, ","))))
 	})
+	vars.SetFunc("jf2", func(a jet.Arguments) reflect.Value {
+		a.RequireNumOfArguments("jf2", 2, 2)
+		return reflect.ValueOf(rec("jf2"))
+	})
+	vars.SetFunc("jf0", func(a jet.Arguments) reflect.Value {
+		a.RequireNumOfArguments("jf0", 0, 0)
+		return reflect.ValueOf(rec("jf0"))
+	})
 	// argument sources needing conversion
 	vars.Set("ns", c14named("named"))
 	vars.Set("i8", int8(8))
@@ -326,6 +334,9 @@ var c14errCases = []struct{ name, src string }{
 	{"two-slots-is-parse-error", `1 | f2(_, _)`},
 	{"safewriter-not-last", `"a" | raw | f1`}, {"safewriter-first-not-last", `unsafe: "a" | f1`}, {"safewriter-first-then-jetfunc", `unsafe: "a" | jf`}, {"safewriter-middle", `"a" | f1 | safeHtml | f1`},
 	{"slot-without-pipe", `f2("a", _)`}, {"slot-without-pipe-jetfunc", `jf(_)`},
+	// jet.Funcs with an exact arity (built-in len; user Funcs requiring exactly 0 or 2 arguments) reject surplus arguments in every form
+	{"too-many-jetfunc-len", `len("abc", "de")`}, {"too-many-jetfunc-len-prefix", `len: "abc", "de"`}, {"too-many-jetfunc-len-piped", `"abc" | len: "de"`}, {"too-many-jetfunc-len-slot", `"abc" | len("de", _)`},
+	{"too-many-jetfunc-exact2", `jf2("a", "b", "c")`}, {"too-many-jetfunc-exact2-piped", `"a" | jf2: "b", "c"`}, {"too-few-jetfunc-exact2", `jf2("a")`}, {"too-many-jetfunc-exact0", `1 | jf0`}, {"too-many-jetfunc-exact0-call", `jf0(1)`},
 }
 
 func c14errors(c *fw.Ctx, idx int, r *rand.Rand) {
@@ -381,6 +392,9 @@ func c14builtins(c *fw.Ctx, idx int, r *rand.Rand) {
 		{"json-string", "json(" + q(s1) + ")", js(s1)},
 		{"writeJson", "writeJson(vm)", wj(mp)},
 		{"len-string", "len(" + q(s1) + ")", fmt.Sprint(len(s1))},
+		{"len-string-multibyte", "len(" + q("日本語"+s1+"🙂é") + ")", fmt.Sprint(len("日本語" + s1 + "🙂é"))},
+		{"len-string-multibyte-piped", q("h\u00e9llo\u00a0"+s1) + " | len", fmt.Sprint(len("h\u00e9llo\u00a0" + s1))},
+		{"len-string-invalid-utf8", "len(vbad)", "3"},
 		{"len-slice", "len(vs)", "3"},
 		{"len-map", "len(vm)", "2"},
 		{"len-array", "len(varr)", "4"},
@@ -423,7 +437,7 @@ func c14builtins(c *fw.Ctx, idx int, r *rand.Rand) {
 	ch := make(chan int, 5)
 	ch <- 1
 	ch <- 2
-	vars.Set("vs", sl).Set("vm", mp).Set("varr", [4]int{}).Set("vps", &ps).Set("vpps", &pps).Set("vst", struct{ A, B int }{}).Set("vch", ch).Set("vif", interface{}([]string{"a", "b", "c"}))
+	vars.Set("vs", sl).Set("vm", mp).Set("varr", [4]int{}).Set("vps", &ps).Set("vpps", &pps).Set("vst", struct{ A, B int }{}).Set("vch", ch).Set("vif", interface{}([]string{"a", "b", "c"})).Set("vbad", "a\xff\xfe")
 	res := jx.Run(map[string]string{"/t.jet": tpl}, "/t.jet", vars, nil, jx.NoEscape)
 	c.Eval(1)
 	c.Count("builtin_cases", 1)
@@ -439,7 +453,7 @@ func init() {
 		ID:        "C14",
 		Technique: "metamorphic monitor with recorded call log: every surface form of a call intent must render and call exactly like the plain call; built-ins compared differentially with the Go functions they expose",
 		Rule: "60 rebinding histories first (one Set, the same templates executed while the name of a built-in is rebound in VarMap and Set globals: x | f, x | g | f, x | f(), f: x and f(x) must all call what f resolves to in that execution); then 2/5 of the cases: a call intent (callee among reflected fixed-arity funcs, variadic funcs, value/pointer-receiver methods and a jet.Func; arguments among string/raw-string/number literals and variables needing conversion: named string, int8, uint16, float64) is printed as f(x,a,b), f: x,a,b, x | f: a,b, x | f(a,b) and with the '_' slot at every position (incl. the variadic tail); " +
-			"output and the recorded (callee, received arguments) log must equal the plain call's, with exactly one call; 1/5: pipelines of 2-4 stages (mixed forms and slots) against the nested plain calls, innermost first, each once; 1/5: 26 directed error cases (wrong count in every form, inconvertible or nil arguments incl. slots and variadic tails, misplaced SafeWriter stages, '_' without pipe) must fail without panicking; " +
+			"output and the recorded (callee, received arguments) log must equal the plain call's, with exactly one call; 1/5: pipelines of 2-4 stages (mixed forms and slots) against the nested plain calls, innermost first, each once; 1/5: 35 directed error cases (wrong count in every form, inconvertible or nil arguments incl. slots and variadic tails, misplaced SafeWriter stages, '_' without pipe) must fail without panicking; " +
 			"1/5: built-ins lower, upper, hasPrefix, hasSuffix, repeat, replace, split, trimSpace, html, url, json, writeJson, len (string, slice, map, array, *slice, **slice, struct, chan, interface), ints, map, slice/array on random arguments against the Go functions; non-trivial = intent with >=3 forms and an argument needing conversion; distinct by (callee, arity, argument kinds)",
 		Assumptions: []string{"numeric arguments that need conversion are integral (float truncation is Go's conversion rule)"},
 		NCases:      c14n,
